@@ -16,6 +16,7 @@ sys.path.insert(0, os.path.dirname(os.path.dirname(os.path.abspath(__file__))))
 import numpy as np  # noqa: E402
 
 from checks.common import Check, scenario, sopht_modules  # noqa: E402
+from checks import c04_step  # noqa: E402,F401  (registers the step scenario also for replays)
 
 
 def _face_handles(dim):
@@ -179,12 +180,7 @@ def main():
         for ftype in ("multiplicative", "convolution"):
             for order in ((1, 2) if chk.quick else (1, 2, 3)):
                 chk.add(telescoping, real_t=rt, op=f"filter:{ftype}:{order}", dim=3, shape=(2 * order + 5,) * 3)
-    try:
-        from checks import c04_step
-
-        c04_step.schedule(chk)
-    except ImportError:
-        chk.outside.append("(c) grid-sum conservation of the full simulator step: harness not built yet")
+    c04_step.schedule(chk)
     chk.bounds = ["(a) every interior face of a 6^d (thorough: non-cubic 7x6(x8)) grid, all field/velocity values, all upwind sign patterns (ite inside the query)",
                   "(b) 7^d grids with two zero layers (filters: order+1 zero layers); ENO3 step on 10x11 / 9x9x10 with 4 zero layers, velocity arbitrary everywhere"]
     chk.outside += ["larger grids (stencils are translation invariant; the face identity is per face)", "rounding"]
